@@ -451,6 +451,72 @@ example :
 example : ((Pool.init 1 10).put 0 5).get 20 = ({ limit := 1, maxAge := 10, created := 0, idle := [], next := 1 }, .got 0 true [0]) := by
   decide
 
+/-- **A `Get` that has to wait changes nothing** (in a reachable state): it reaches `cond.Wait()` with the pool
+exactly as it found it, so the waiting call is a retry of the same `Get` later — `PSys.step` taking a waking
+`Get` as a fresh atomic `get` loses no behaviour. -/
+theorem pool_wait_changes_nothing (limit maxAge : Nat) (s : PSys) (h : PReach limit maxAge s) (now : Nat)
+    (d : List Nat) (hw : (s.pool.get now).2 = .wait d) : (s.pool.get now).1 = s.pool ∧ d = [] := by
+  have hi := preach_inv h
+  have spec := getLoop_spec s.pool.limit s.pool.maxAge now s.pool.next s.pool.idle s.pool.created []
+  have hd := getLoop_destroyed s.pool.limit s.pool.maxAge now s.pool.next s.pool.idle s.pool.created []
+  unfold Pool.get at hw ⊢
+  revert spec hd hw
+  generalize getLoop s.pool.limit s.pool.maxAge now s.pool.next s.pool.idle s.pool.created [] = r
+  obtain ⟨p', res⟩ := r
+  intro hw spec hd
+  simp only at hw
+  subst hw
+  obtain ⟨h1, h2, h3, h4, h5, h6⟩ := spec
+  obtain ⟨pre, hpre, _, hdd, _⟩ := hd
+  simp only [List.nil_append] at hdd
+  have hc := hi.count
+  have hl := hi.le_limit
+  rw [hi.lim] at h6
+  have hz : s.pool.idle.length = 0 := by omega
+  have hnil : s.pool.idle = [] := List.eq_nil_of_length_eq_zero hz
+  have hprenil : pre = [] := by
+    rw [hnil] at hpre
+    exact List.prefix_nil.mp hpre
+  refine ⟨?_, by rw [hdd, hprenil]; rfl⟩
+  simp only at h1 h2 h3 h4 h5 ⊢
+  rw [hnil] at h5
+  simp only [List.length_nil] at h5
+  have h5' : p'.created = s.pool.created := by omega
+  cases p' with
+  | mk l' m' c' i' nx' =>
+    cases hs : s.pool with
+    | mk l m c i nx =>
+      rw [hs] at h1 h2 h4 h5' hnil
+      simp only at h1 h2 h3 h4 h5' hnil
+      subst h1 h2 h3 h4 h5' hnil
+      rfl
+
+/-- **Decision on a panicking `create` callback** (re-reading the property: "after all holders have finished,
+including by panic, the full capacity is available again" quantifies over panics INSIDE HOLDERS; a caller
+whose `create` panics never becomes a holder — it is outside the quantifier and is a broken caller contract
+like a foreign `Put`).  What the code does, stated so that nobody has to guess: `p.created++` has run, the
+panic leaves through the deferred `Unlock`, nothing decrements — the counter is one higher than the
+number of living resources, for ever.  Witness with `limit = 1`: after one panicking create nothing is in
+use, nothing is idle, and every later `Get` waits. -/
+theorem pool_create_panic_keeps_slot :
+    let p1 := ((Pool.init 1 0).getCreatePanics 0).1
+    ((Pool.init 1 0).getCreatePanics 0).2.2 = true ∧ p1.created = 1 ∧ p1.idle = [] ∧ (p1.get 1).2 = .wait [] := by
+  decide
+
+/-- on the paths that do not call `create` (an idle resource is reused, or the call waits) a panicking
+`create` makes no difference. -/
+theorem pool_create_panic_only_on_create_path (p : Pool) (now : Nat) (h : (p.getCreatePanics now).2.2 = false) :
+    (p.getCreatePanics now).1 = (p.get now).1 ∧ (p.getCreatePanics now).2.1 = (p.get now).2 := by
+  unfold Pool.getCreatePanics at h ⊢
+  generalize p.get now = r at h ⊢
+  obtain ⟨p', res⟩ := r
+  cases res with
+  | wait d => exact ⟨rfl, rfl⟩
+  | got item fresh d =>
+    cases fresh with
+    | false => exact ⟨rfl, rfl⟩
+    | true => simp at h
+
 /-! ## 5. the history monitor is sound for the model -/
 
 /-- For every disciplined site program, capacity, number of threads and schedule: the history of
